@@ -20,7 +20,7 @@ from .common import AnalysisError, norm_stmt, parse_py
 
 SAFE_BUILTINS = {"tuple": tuple, "sorted": sorted, "map": map, "set": set, "dict": dict, "list": list, "str": str,
                  "len": len, "frozenset": frozenset, "range": range, "zip": zip, "enumerate": enumerate, "min": min,
-                 "max": max, "bool": bool, "int": int}
+                 "max": max, "bool": bool, "int": int, "any": any, "all": all}
 SAFE_MODULE_ATTRS = {
     "re": {"escape": re.escape, "UNICODE": re.UNICODE},
     "_itertools": {"permutations": itertools.permutations, "product": itertools.product},
@@ -67,7 +67,7 @@ class _Verifier:
                     if n.attr not in SAFE_MODULE_ATTRS[n.value.id]:
                         self.why = f"{n.value.id}.{n.attr} is not whitelisted"
                         return False
-                elif n.attr not in SAFE_METHODS:
+                elif n.attr not in SAFE_METHODS and n.attr not in getattr(self, "data_attrs", ()):
                     self.why = f"method `.{n.attr}` is not whitelisted"
                     return False
         return True
@@ -165,11 +165,13 @@ def fold_tokenize() -> Folded:
     return out
 
 
-def fold_expr(expr: ast.expr, extra: Optional[dict] = None) -> Any:
+def fold_expr(expr: ast.expr, extra: Optional[dict] = None, data_attrs: tuple = ()) -> Any:
     """Fold an expression occurring inside a tokenizer function (e.g. the `pattern=` argument of add_prog)
-    with some free names bound to given constants."""
+    with some free names bound to given constants.  `data_attrs`: attribute names that may be read (plain data fields of
+    the objects supplied in `extra`)."""
     f = fold_tokenize()
     ver = _Verifier(set(f.values), set(f.pure_funcs))
+    ver.data_attrs = set(data_attrs)
     local = set(extra or {})
     if not ver.ok_expr(expr, local):
         raise AnalysisError(f"cannot fold `{norm_stmt(expr)}`: {ver.why}")
